@@ -80,8 +80,8 @@ Proof.
   - cbn [pcell_fits_b] in Hf. destruct (f64_is_nan n) eqn:En.
     + rewrite wrender_pct_nan by exact En. apply Z.eqb_eq in Hf. subst l. reflexivity.
     + rewrite wrender_pct_number by exact En.
-      apply andb_prop in Hf. destruct Hf as [Hr Hp]. apply Z.leb_le in Hr, Hp.
-      unfold pct_text. replace (round <? 0) with false by lia. cbn [app].
+      apply andb_prop in Hf. destruct Hf as [Hr Hp]. apply Z.leb_le in Hp.
+      unfold pct_text. destruct (pct_badprec round); [discriminate Hr|]. cbn [app].
       unfold pct_len in Hp. rewrite rune_count_app, pad_left_width by lia.
       change (rune_count [37]) with 1. lia.
 Qed.
@@ -96,10 +96,10 @@ Proof.
     rewrite !rune_count_app. change (rune_count [37]) with 1.
     pose proof (rune_count_nonneg (pct_num round n)) as Hn.
     unfold pad_left. rewrite rune_count_app. unfold spaces. rewrite rune_count_repeat_z_any by reflexivity.
-    destruct (round <? 0) eqn:Er.
+    destruct (pct_badprec round) eqn:Er.
     + change (rune_count s_badprec) with 11. lia.
     + change (rune_count []) with 0.
-      apply andb_false_iff in Hf. destruct Hf as [Hf|Hf]; [lia|]. apply Z.leb_gt in Hf. lia.
+      apply andb_false_iff in Hf. destruct Hf as [Hf|Hf]; [discriminate Hf|]. apply Z.leb_gt in Hf. lia.
 Qed.
 
 (* ------------------------------------------------------------------ widths *)
@@ -219,7 +219,7 @@ Lemma pct_text_no_nl round n l : ~ In 10 (pct_text round n l).
 Proof.
   unfold pct_text, pad_left. intros H.
   apply in_app_or in H. destruct H as [H|H].
-  - destruct (round <? 0); [|exact H]. cbn in H. repeat destruct H as [H|H]; try discriminate H; exact H.
+  - destruct (pct_badprec round); [|exact H]. cbn in H. repeat destruct H as [H|H]; try discriminate H; exact H.
   - apply in_app_or in H. destruct H as [H|H].
     + apply in_app_or in H. destruct H as [H|H]; [revert H; apply repeat_z_not_in; discriminate|].
       exact (fmt_f_no_nl _ _ H).
